@@ -168,6 +168,13 @@ m("C20-e", "C20", "libwallet/src/api_impl/owner.rs", "\t\twallet_lock!(wallet_in
 
 m("C18-f", "C18", "libwallet/src/internal/updater.rs", "\t\t\t\t\t\t\toutput.mark_reverted();\n\t\t\t\t\t\t} else {\n\t\t\t\t\t\t\toutput.mark_spent();", "\t\t\t\t\t\t\toutput.mark_reverted();\n\t\t\t\t\t\t} else {\n\t\t\t\t\t\t\toutput.mark_unspent();", "C18.R4")
 
+m("C16-k", "C16", "libwallet/src/internal/scan.rs", "\t\tt.confirmed = true;\n\t\tt.amount_credited = output.value;\n\t\tt.num_outputs = 1;", "\t\tt.confirmed = true;\n\t\tt.amount_credited = output.lock_height;\n\t\tt.num_outputs = 1;", "C16.R1")
+
+m("C13-e", "C13", "controller/src/controller.rs", "\t\tmatches!(val[\"method\"].as_str(), Some(\"init_secure_api\"))", "\t\tmatches!(val[\"method\"].as_str(), Some(\"init_secure_api\") | Some(\"open_wallet\"))", "C13.R1")
+
+m("C14-e", "C14", "impls/src/backends/lmdb.rs", "\t\t\t\t\tk.mask_master_key(&mask_value)?;\n\t\t\t\t\tSome(mask_value)", "\t\t\t\t\tSome(mask_value)", "C14.R6")
+m("C14-f", "C14", "impls/src/backends/lmdb.rs", "\t\t\t\t\tk.mask_master_key(&mask_value)?;\n\t\t\t\t\tSome(mask_value)", "\t\t\t\t\tk.mask_master_key(&mask_value)?;\n\t\t\t\t\tSome(secp::key::SecretKey::new(&k.secp(), &mut thread_rng()))", "C14.R6")
+
 
 def for_property(prop):
     return [x for x in M if x["property"] == prop]
